@@ -153,9 +153,10 @@ def _extract_omega_delta_phi(
             pchip = PCHIP1D(t_grid, signal.real)
             data_mid[:, q_pos] = pchip(t_mid)
             if name == "amp":
-                data_mid[-1, q_pos] = torch.where(
-                    data_mid[-1, q_pos] > 0,
-                    data_mid[-1, q_pos],
+                # steps beyond the last sample extrapolate: never below zero
+                data_mid[:, q_pos] = torch.where(
+                    data_mid[:, q_pos] > 0,
+                    data_mid[:, q_pos],
                     0,
                 )
 
